@@ -71,7 +71,8 @@ class DataProvider:
                 dataset, "data", model_dimension, global_dimension
             )
             if self._weight[label] is not None:
-                self._data[label] *= self._weight[label]
+                # not in place: integer data cannot hold the product and single precision data would round it
+                self._data[label] = self._data[label] * self._weight[label]
 
             if has_dataset_model_global_model(dataset_model):
                 self._flattened_data[label] = self._data[label].T.flatten()
